@@ -11,13 +11,6 @@ Record ecase := ECase {
   e_residue : nat               (* frames left in CallTracer.traces after a workload whose calls have all finished *)
 }.
 
-Fixpoint prefix (p s : string) : bool :=
-  match p, s with
-  | EmptyString, _ => true
-  | String a p', String b s' => Ascii.eqb a b && prefix p' s'
-  | _, _ => false
-  end.
-
 (* finding classes, as predicates on one journal entry *)
 Definition lookup_entries : list string :=
   ["GlobalGA.__getattribute__(__code__)"; "GlobalGA.__getattribute__(__wrapped__)"; "GlobalGA.__getattribute__(__class__)";
